@@ -11,6 +11,11 @@ with the real property function, the slope dX/dT).  The Lean driver recomputes t
 (N = 0 / 1 / ≥ 2, Q folding, P = min, target enthalpy, phase flips, fallbacks) from the recorded
 inlet enthalpies and solver answers and evaluates the hypothesis monitor.
 
+`mix_from(..., vle=True)` and `energy_balance=False` are covered too: the `stream.vle(...)` call is wrapped, what it
+was asked for (H = Σ H_in + Q resp. T = receiver.T, P = min P) is compared with the model, what it left (T, phases holding
+material) is the model's parameter.  Without the energy balance the oracle requires T untouched and P = min P only for two
+or more non-empty inlets.
+
 Oracle (real objects only): receiver.H = Σ inlet.H (read before the call) + Q + heats;
 receiver.P = min P of the non-empty inlets; read-back after assignment; re-assigning the current
 value leaves T where it was; separate_out leaves H_self − H_other.
@@ -27,7 +32,9 @@ from harness.core import Case, ImplResult, fbits, from_fbits
 
 PID = 'C02'
 LEAN_MODULES = ['ThermoVerif.Props.C02']
-RULE = ('cases of 1–5 inlets (single-phase l/g streams, two-phase MultiStreams, empty streams, Heat/Power objects, None), '
+RULE = ('60 % single-mix cases, 40 % histories (3–6 further operations on ONE receiver: mix again with the receiver among the '
+        'inlets, assign H / h / S, separate a share — each step judged by the oracles); flags vle=True 14 %, energy_balance=False 14 %; '
+        'MultiStream receivers / inlets over gl, ls, gs, gls; cases of 1–5 inlets (single-phase l/g streams, two-phase MultiStreams, empty streams, Heat/Power objects, None), '
         'T 250–500 K, P 1e4–1e7 Pa (log-uniform), 5 chemicals with random flows; receiver fresh / multi-phase / one of the inlets; '
         'Q = ΔT·ΣC with ΔT ∈ ±40 K, 0, or huge (fallback branches); conserve_phases 10 %; then separate_out of a sub-stream '
         '(equal shares of {exactly the parent\'s T, another T} x {same phase, opposite phase}; 15 % at another pressure) and '
@@ -45,6 +52,8 @@ ASSUMPTIONS = [
     'is strictly increasing over 17 points spaced 2e-6 K around the solution; where it is not (thermo liquid entropy noise) the '
     'failure is reported under the signature set:raised:S:model-not-monotone',
     'material side of mixing (which flows end up where) is C01\'s concern; only emptiness and phase labels are used here',
+    'the vapour-liquid equilibrium called by mix_from(vle=True) is a parameter (C03 / C04 own it): its answer (T, phases holding '
+    'material) is recorded; hypothesis VleSound: an H,P flash that returns reproduces H (checked by the mix:energy oracle)',
 ]
 TRUSTED = ['Lean 4.33 kernel', 'harness/props/c02.py + Driver/C02.lean (parsing, tolerances: rtol 1e-6 on H, 1e-6 K on T)',
            'generator reach (see histogram)']
@@ -53,6 +62,7 @@ tmo = None
 CHEMS = ['Water', 'Ethanol', 'Methanol', 'Glycerol', 'Propane']
 T_LO, T_HI = 250.0, 500.0
 _REC = None
+_VREC = None       # recorder of stream.vle(...) calls
 
 
 # ----------------------------------------------------------------------------------------------
@@ -117,6 +127,26 @@ def setup():
             return T
         solver._verif = True
         setattr(cls, name, solver)
+
+    # the vapour-liquid equilibrium is a parameter of the model: record what mix_from asked of it and what it left
+    from thermosteam.equilibrium import VLE
+    vle_orig = VLE.__call__
+    def vle_call(self, **kw):
+        global _REC
+        vrec = _VREC
+        if vrec is None: return vle_orig(self, **kw)
+        saved, _REC = _REC, None            # solver calls inside the flash belong to the flash
+        spec = {k: float(v) for k, v in kw.items() if v is not None and k in ('T', 'P', 'H')}
+        try:
+            r = vle_orig(self, **kw)
+        except BaseException as e:
+            vrec.append(('ex', spec, type(e).__name__)); raise
+        finally:
+            _REC = saved
+        held = ''.join(sorted(ph for ph, mol in self._imol if mol.any()))
+        vrec.append(('ok', spec, float(self._thermal_condition.T), held))
+        return r
+    VLE.__call__ = vle_call
 
     wrap_single('solve_T_at_HP', 'H', False)
     wrap_single('solve_T_at_SP', 'S', True)
@@ -221,7 +251,7 @@ def flows(tok):
 
 
 def run_ops(ops):
-    global _REC
+    global _REC, _VREC
     objs = []
     model_in, outs, failures, tags = [], [], [], set()
     nontrivial = False
@@ -240,6 +270,12 @@ def run_ops(ops):
             s = tmo.MultiStream(None, T=float(t[1]), P=float(t[2]), phases=('g', 'l'))
             fg, fl = t[3].split('|')
             s.imol['g'] = flows(fg); s.imol['l'] = flows(fl)
+            objs.append(s)
+        elif op == 'MP':
+            # MP <phases> <T> <P> <flows per phase, in the order given, separated by |>
+            phs = t[1]
+            s = tmo.MultiStream(None, T=float(t[2]), P=float(t[3]), phases=tuple(phs))
+            for ph, fl in zip(phs, t[4].split('|')): s.imol[ph] = flows(fl)
             objs.append(s)
         elif op == 'Q':
             objs.append(tmo.Heat(None, heat=float(t[1])))
@@ -267,6 +303,8 @@ def run_ops(ops):
             ins = [objs[i] for i in idx]
             if not is_stream(recv): continue
             mode, qv, cp = t[3], float(t[4]), t[5] == '1'
+            flags = t[6] if len(t) > 6 else ''
+            vle, eb = 'v' in flags, 'n' not in flags
             streams = [i for i in ins if is_stream(i) and not i.isempty()]
             Hs = [read(i, 'H') for i in streams]
             if any(h != h for h in Hs): continue          # an inlet outside the property models: nothing to say
@@ -280,37 +318,62 @@ def run_ops(ops):
                 else:
                     toks.append(f's:{1 if i.isempty() else 0}:{fbits(read(i, "H") if not i.isempty() else 0.0)}:{fbits(i.P)}:'
                                 f'{fbits(i.T)}:{ph_of(i)}:{chars(i.phase)}:{1 if i is recv else 0}')
-            head = f'mix r={st_of(recv)} rp={chars(recv.phase)} ins={";".join(toks) if toks else "-"} Q={fbits(Q)} cp={1 if cp else 0} kind=H'
+            head = (f'mix r={st_of(recv)} rp={chars(recv.phase)} ins={";".join(toks) if toks else "-"} Q={fbits(Q)} '
+                    f'cp={1 if cp else 0} eb={1 if eb else 0} vle={1 if vle else 0} kind=H')
+            T0r, P0r = recv.T, recv.P
             Ps = [i.P for i in streams]
             alias = any(i is recv for i in streams)
             # what the inlets' material holds at the two ends of the range, each portion in its own phase
             lo = sum(value_at(i, 'H', T_LO) for i in streams); hi = sum(value_at(i, 'H', T_HI) for i in streams)
             rec = []; _REC = rec
+            vrec = []; _VREC = vrec
             out = 'ok'
             try:
-                recv.mix_from(ins, Q=Q, conserve_phases=cp)
+                recv.mix_from(ins, energy_balance=eb, vle=vle, Q=Q, conserve_phases=cp)
             except BaseException as e:
-                out = 'raised'; tags.add('mix-raised:' + type(e).__name__)
+                out = 'raised'; tags.add('mix-raised:' + type(e).__name__ + (':' + str(e)[:60] if isinstance(e, ReferenceError) else ''))
             finally:
-                _REC = None
+                _REC = None; _VREC = None
             N = len(streams)
             expected = (sum(Hs) + Q + heat) if N else 0.0
             Hread = read(recv, 'H')
-            tol = 1e-6 * max([abs(expected), abs(Q), abs(heat)] + [abs(h) for h in Hs]) + 1e-5 * last_slope(rec) + 1e-9
-            model_in.append(head + f' sol={sol_tokens(rec)}')
-            outs.append(answer(recv, out, Hread, rec, tol, mode != 'huge'))
+            Crecv = read(recv, 'C')
+            tol = (1e-6 * max([abs(expected), abs(Q), abs(heat)] + [abs(h) for h in Hs]) + 1e-9
+                   + 1e-5 * (last_slope(rec) if rec else (Crecv if vle and Crecv == Crecv else 0.0)))
+            if vrec:
+                v = vrec[-1]
+                vres = f'ok:{fbits(v[2])}:{chars(v[3])}' if v[0] == 'ok' else 'ex'
+                sp = v[1]
+                vs = (f'H:{fbits(sp["H"])}:{fbits(sp["P"])}' if 'H' in sp else f'T:{fbits(sp["T"])}:{fbits(sp["P"])}')
+            else:
+                vres, vs = '-', '-'
+            model_in.append(head + f' vres={vres} sol={sol_tokens(rec)}')
+            energy_claim = eb and N >= 1               # without the energy balance the property makes no enthalpy claim
+            vx = bool(vrec) and vrec[-1][0] == 'ex'    # the flash raised: the state it left half-way is not compared
+            outs.append(answer(recv, out, Hread, rec, tol, mode != 'huge' and (energy_claim or N == 0)) + f' vs={vs} vx={1 if vx else 0}')
             tags.add(f'mix:N={min(N, 2)}' + (':Q' if (Q or heat) else '') + (':cp' if cp else '') + (':alias' if alias else '')
-                     + (':multi-recv' if is_multi(recv) else ''))
+                     + (':multi-recv' if is_multi(recv) else '') + (':vle' if vle else '') + ('' if eb else ':no-eb'))
             if N >= 2 and len({i.T for i in streams}) > 1 or (N >= 1 and (Q or heat)): nontrivial = True
             # ---- oracle: the property text on the real objects
-            if N >= 1 and out == 'ok':
+            if not eb:
+                # no energy balance: the temperature is not touched; the pressure only by a mix of two or more
+                if out == 'ok':
+                    if recv.T != T0r:
+                        fail('mix:no-eb:T', f'energy_balance=False moved T from {T0r!r} to {recv.T!r} (N={N}, vle={vle})')
+                    wantP = min(Ps) if N >= 2 else P0r
+                    if recv.P != wantP:
+                        fail('mix:pressure', f'receiver.P = {recv.P!r}, expected {wantP!r} (energy_balance=False, N={N})')
+                elif not vx:
+                    fail('mix:raised', f'mix_from(energy_balance=False) raised (N={N}, vle={vle})')
+            elif N >= 1 and out == 'ok':
                 if not abs(Hread - expected) <= tol:
                     fail('mix:energy:' + ('N=1' if N == 1 else 'alias' if alias else 'N>=2'),
                          f'receiver.H = {Hread!r} but Σ inlet.H + Q = {expected!r} (N={N} non-empty inlets, Q={Q!r}, '
-                         f'heat objects {heat!r}, receiver {"is" if alias else "is not"} one of the inlets)')
+                         f'heat objects {heat!r}, receiver {"is" if alias else "is not"} one of the inlets'
+                         + (', vle=True' if vle else '') + ')')
                 if recv.P != min(Ps):
                     fail('mix:pressure', f'receiver.P = {recv.P!r}, min P of the non-empty inlets = {min(Ps)!r}')
-            elif N >= 1 and mode != 'huge':
+            elif N >= 1 and mode != 'huge' and not vle:
                 # raised although the heat input is moderate: is the target inside the range of the models?
                 if lo == lo and hi == hi and lo <= expected <= hi:
                     fail('mix:raised', f'mix_from raised although Σ inlet.H + Q = {expected!r} lies between Σ H(250 K) = {lo!r} '
@@ -389,12 +452,12 @@ def run_ops(ops):
             tk = 'Sg' if kind == 'S' and ph0 == 'g' and ph_of(s) == 'g' else kind      # tolerance class
             tol = RTOL[tk] * abs(x) + 1e-5 * last_slope(rec) + 1e-9
             model_in.append(head + f' kind={tk} sol={sol_tokens(rec)}')
-            outs.append(answer(s, out, back, rec, tol, mode != 'abs'))
+            outs.append(answer(s, out, back, rec, tol, mode not in ('abs', 'zero')))      # 0 is an arbitrary target as well
             flipped = ph_of(s) != ph0
             tags.add(f'set:{kind}:{mode}:{"multi" if is_multi(s) else ph0}' + (':flipped' if flipped else '')
                      + (':' + out if out != 'ok' else ''))
             if abs(s.T - T0) > 1e-3: nontrivial = True
-            if empty or mode == 'abs': continue      # the property speaks about non-empty streams and reachable targets
+            if empty or mode in ('abs', 'zero'): continue      # the property speaks about non-empty streams and reachable targets
             if out == 'ok':
                 if not abs(back - x) <= tol:
                     fail(f'set:readback:{kind}', f'assigned {kind} = {x!r} to a {ph0} stream, read back {back!r} '
@@ -438,12 +501,19 @@ def compare(impl, model):
     if model == 'bad-op' or impl == model: return impl == model
     a, b = _kv(impl), _kv(model)
     dom = a.get('dom', '1') == '1'
-    for k in ('out', 'ph', 'e', 'calls', 'q') + (('hyp',) if dom else ()):
+    vx = a.get('vx', '0') == '1'
+    for k in ('out', 'e', 'calls', 'q') + (('hyp',) if dom else ()) + (() if vx else ('ph',)):
         if a.get(k) != b.get(k): return False
+    va, vb = a.get('vs', '-').split(':'), b.get('vs', '-').split(':')
+    if va[0] != vb[0]: return False
     try:
         if from_fbits(a['P']) != from_fbits(b['P']): return False
         Ta, Tb = from_fbits(a['T']), from_fbits(b['T'])
-        if not (abs(Ta - Tb) <= 1e-6): return False
+        if not vx and not (abs(Ta - Tb) <= 1e-6): return False
+        if va[0] in 'HT':        # the flash was asked for the same thing: H within the enthalpy tolerance, T and P exactly
+            x, y = from_fbits(va[1]), from_fbits(vb[1])
+            if not (abs(x - y) <= (from_fbits(a['tolH']) if va[0] == 'H' else 0.0)): return False
+            if from_fbits(va[2]) != from_fbits(vb[2]): return False
         if a['out'] == 'ok' and dom:
             Ha, Hb = from_fbits(a['H']), from_fbits(b['H'])
             if not (abs(Ha - Hb) <= from_fbits(a['tolH'])): return False
@@ -484,13 +554,15 @@ def gen_P(rng): return r6(10 ** rng.uniform(4, 7)) if rng.random() < 0.8 else '1
 
 
 def nobj(ops):
-    return sum(1 for o in ops if o.split(' ')[0] in ('S', 'M', 'Q', 'W', 'N', 'sub'))
+    return sum(1 for o in ops if o.split(' ')[0] in ('S', 'M', 'MP', 'Q', 'W', 'N', 'sub'))
 
 
 def gen_stream(rng, ops, empty=None):
     """append a stream-creating op; returns the object index (objects are numbered in creation order)"""
     if empty is None: empty = rng.random() < 0.15
     r = rng.random()
+    if r < 0.03:
+        return gen_multi(rng, ops, empty)
     if r < 0.13:
         fg = gen_flows(rng, empty or rng.random() < 0.15)
         fl = gen_flows(rng, empty or rng.random() < 0.15)
@@ -498,6 +570,63 @@ def gen_stream(rng, ops, empty=None):
     else:
         ops.append(f'S {"l" if r < 0.58 else "g"} {gen_T(rng)} {gen_P(rng)} {gen_flows(rng, empty)}')
     return nobj(ops) - 1
+
+
+def gen_multi(rng, ops, empty):
+    """a MultiStream over a phase tuple other than the usual ('g', 'l') as well"""
+    phs = rng.choice(['gl', 'gl', 'ls', 'gs', 'gls'])
+    rows = '|'.join(gen_flows(rng, empty or rng.random() < 0.3) for _ in phs)
+    ops.append(f'MP {phs} {gen_T(rng) if not empty else "298.15"} {gen_P(rng) if not empty else "101325.0"} {rows}')
+    return nobj(ops) - 1
+
+
+def gen_flags(rng):
+    r = rng.random()
+    return 'v' if r < 0.10 else 'n' if r < 0.20 else 'vn' if r < 0.24 else ''
+
+
+def gen_Q(rng, sane=False):
+    r = rng.random()
+    if r < 0.35: return 'abs', '0.0'
+    if r < 0.88 or sane: return 'dT', r6(rng.uniform(-40, 40) if not sane else rng.uniform(-15, 15))
+    if r < 0.95: return 'abs', r6(rng.uniform(-3e4, 3e4))
+    return 'huge', r6(rng.choice([1e9, -1e9, -3e7, 1e8]))
+
+
+def gen_history(rng):
+    """3-6 operations on ONE receiver: mix, assign, mix again with the receiver among the inlets, separate, assign ... —
+    every step is judged by the energy / pressure / read-back oracles; state left behind by one call is the next call's input"""
+    ops = []
+    pool = [gen_stream(rng, ops, empty=False) for _ in range(rng.choice([2, 3]))]
+    r = rng.random()
+    if r < 0.6: recv = add_obj(ops, f'S {rng.choice("lg")} 298.15 101325.0 {gen_flows(rng, True)}')
+    elif r < 0.8: recv = gen_multi(rng, ops, True)
+    else: recv = add_obj(ops, f'S {rng.choice("lg")} {gen_T(rng)} {gen_P(rng)} {gen_flows(rng)}')
+    mode, q = gen_Q(rng, sane=True)
+    ops.append(f'mix {recv} {",".join(map(str, pool))} {mode} {q} 0 {gen_flags(rng)}'.rstrip())
+    for _ in range(rng.randrange(3, 7)):
+        r = rng.random()
+        if r < 0.40:
+            ins = []
+            if rng.random() < 0.6: ins.append(recv)
+            for _ in range(rng.choice([1, 1, 2])):
+                ins.append(rng.choice(pool) if rng.random() < 0.5 else gen_stream(rng, ops, empty=rng.random() < 0.1))
+            if rng.random() < 0.15: ins.append(add_obj(ops, f'Q {r6(rng.uniform(-2e4, 2e4))}'))
+            rng.shuffle(ins)
+            mode, q = gen_Q(rng, sane=True)
+            cp = '1' if rng.random() < 0.12 else '0'
+            ops.append(f'mix {recv} {",".join(map(str, ins))} {mode} {q} {cp} {gen_flags(rng)}'.rstrip())
+        elif r < 0.75:
+            kind = rng.choice(['H', 'H', 'h', 'S', 'S'])
+            if rng.random() < 0.7: ops.append(f'set {recv} {kind} lerp {r6(rng.uniform(0.1, 0.9))}')
+            else: ops.append(f'set {recv} {kind} cur 0')
+        else:
+            same_T, other_ph = rng.random() < 0.5, rng.random() < 0.4
+            top = 0.15 if other_ph else 0.6
+            fr = ','.join(r6(rng.uniform(0, top)) if rng.random() < 0.8 else '0.0' for _ in CHEMS)
+            b = add_obj(ops, f'sub {recv} {fr} {"0.0" if same_T else r6(rng.uniform(-20, 20))} {"other" if other_ph else "same"} 1.0')
+            ops.append(f'sep {recv} {b}')
+    return Case(ops, {'history': True})
 
 
 def add_obj(ops, line):
@@ -531,7 +660,8 @@ def gen_case(rng):
     r = rng.random()
     if r < 0.55: recv = add_obj(ops, f'S {rng.choice("lg")} 298.15 101325.0 {gen_flows(rng, True)}')
     elif r < 0.65: recv = add_obj(ops, f'S {rng.choice("lg")} {gen_T(rng)} {gen_P(rng)} {gen_flows(rng)}')
-    elif r < 0.75: recv = add_obj(ops, f'M 298.15 101325.0 {gen_flows(rng, True)}|{gen_flows(rng, True)}')
+    elif r < 0.70: recv = add_obj(ops, f'M 298.15 101325.0 {gen_flows(rng, True)}|{gen_flows(rng, True)}')
+    elif r < 0.78: recv = gen_multi(rng, ops, rng.random() < 0.7)
     else: recv = rng.choice(streams)
     r = rng.random()
     if r < 0.35: mode, q = 'abs', '0.0'
@@ -539,7 +669,7 @@ def gen_case(rng):
     elif r < 0.95: mode, q = 'abs', r6(rng.uniform(-3e4, 3e4))
     else: mode, q = 'huge', r6(rng.choice([1e9, -1e9, -3e7, 1e8]))
     cp = '1' if rng.random() < 0.10 else '0'
-    ops.append(f'mix {recv} {",".join(map(str, ins))} {mode} {q} {cp}')
+    ops.append(f'mix {recv} {",".join(map(str, ins))} {mode} {q} {cp} {gen_flags(rng)}'.rstrip())
     # assignments and separations afterwards
     cand = streams + [recv]
     for _ in range(rng.choice([0, 1, 1, 2, 3])):
@@ -572,7 +702,7 @@ def gen_case(rng):
 def generate(rng, tier, index, nworkers):
     n = max(1, budget(tier)['cases'] // nworkers)
     for _ in range(n):
-        yield gen_case(rng)
+        yield gen_history(rng) if rng.random() < 0.4 else gen_case(rng)
 
 
 def corpus():
